@@ -325,7 +325,7 @@ class Ctx(object):
 
     # ------------------------------------------------------------------ E1
     def lattice(self, name, units, one, expand=None, nworkers=None, bounds=None,
-                engine="lattice", fpstrict=False, wstrict=False):
+                engine="lattice", fpstrict=False, wstrict=False, envstrict=False):
         """enumerate: for unit in units: for case in expand(unit): one(case, rec)
 
         ``units`` is a list (sharded over workers); ``expand`` (default:
@@ -340,6 +340,8 @@ class Ctx(object):
                 self._fpstrict_pass(name, units, one, expand, nworkers, bounds, engine)
             if wstrict:
                 self._wstrict_pass(name, units, one, expand, nworkers, bounds, engine)
+            if envstrict:
+                self._envstrict_pass(name, units, one, expand, nworkers, bounds, engine)
             return part
         units = list(units)
         part.units = units
@@ -378,7 +380,24 @@ class Ctx(object):
             self._fpstrict_pass(name, units, one, expand, nworkers, bounds, engine)
         if wstrict:
             self._wstrict_pass(name, units, one, expand, nworkers, bounds, engine)
+        if envstrict:
+            self._envstrict_pass(name, units, one, expand, nworkers, bounds, engine)
         return part
+
+    def _envstrict_pass(self, name, units, one, expand, nworkers, bounds, engine):
+        """both strict environments at once (floating-point errors trap AND every warning is an exception), for parts
+        that are clean under both on the unchanged tree: one extra pass instead of two"""
+        import warnings as _w
+        import numpy as _np
+
+        def strict_one(case, rec):
+            with _w.catch_warnings():
+                _w.simplefilter("error")
+                with _np.errstate(divide="raise", invalid="raise", over="raise"):
+                    return one(case, rec)
+        b = dict(bounds or {})
+        b["environment"] = "numpy.errstate(divide/invalid/over='raise') and warnings.simplefilter('error')"
+        return self.lattice(name + "/strict-environment", units, strict_one, expand=expand, nworkers=nworkers, bounds=b, engine=engine)
 
     def _wstrict_pass(self, name, units, one, expand, nworkers, bounds, engine):
         """the same part once more in a process that turns every warning into an exception (python -W error, a pytest
